@@ -558,6 +558,18 @@ func c10Run(env *Env, pl *C10Plan, collect map[c10Pos][]byte, baseAlloc uint64) 
 		slog.SetDefault(slog.New(slog.NewTextHandler(io.Discard, &slog.HandlerOptions{Level: slog.LevelDebug})))
 		defer slog.SetDefault(old)
 	}
+	// rendezvous directives with every kind of value (text, integer, nested
+	// array) so that the sweeps reach the directive parser through DI and TO2
+	for _, name := range []string{"mfg", "owner1", "owner2"} {
+		if n := s.Nodes[name]; n != nil {
+			n.RvInfo = [][]protocol.RvInstruction{{
+				{Variable: protocol.RVDns, Value: c10Enc("rv.example")},
+				{Variable: protocol.RVDevPort, Value: c10Enc(int64(8041))},
+				{Variable: protocol.RVExtRV, Value: c10Enc([]any{"mech", int64(1)})},
+				{Variable: protocol.RVDelaysec, Value: c10Enc(int64(5))},
+			}}
+		}
+	}
 	if pl.Partial {
 		for name, roles := range map[string][]string{"mfg": {"DI"}, "rv": {"TO0", "TO1"}, "owner1": {"TO2"}, "owner2": {"TO2"}} {
 			if n := s.Nodes[name]; n != nil {
@@ -805,6 +817,17 @@ func c10Run(env *Env, pl *C10Plan, collect map[c10Pos][]byte, baseAlloc uint64) 
 		}
 		_, perr = s.TO2(ctx, d1, "owner1", to1d, TO2Opts{Kex: kxs, Cipher: cph, Transport: devTr,
 			Modules: map[string]serviceinfo.DeviceModule{"ping": &PongDevice{Mod: "ping", Rec: rec}}})
+	}
+	// what a device application does next with the credential the peer handed
+	// it (the example client does exactly this before TO1): interpret the
+	// rendezvous directives
+	if d1 != nil && d1.Cred != nil && (pl.Proto == "DI" || pl.Proto == "TO2") {
+		rv := d1.Cred.RvInfo
+		_, _ = s.Net.SafeCall("app:ParseDeviceRvInfo", func() error {
+			protocol.ParseDeviceRvInfo(rv)
+			protocol.ParseOwnerRvInfo(rv)
+			return nil
+		})
 	}
 	runtime.ReadMemStats(&ms1)
 	total := ms1.TotalAlloc - allocStart
